@@ -132,6 +132,16 @@ def _judge(part, s, mask, which):
     public = bool(mask & (1 << 16))
     L = len(s)
     wit = {"hex": s.hex(), "mask": mask}
+    if mask & (1 << 20):
+        # signature validation legitimately peeks at the byte after the range (an 'a' as last code): only the
+        # other predicates are required to be independent of what surrounds the range
+        names = ["bus_name", "interface", "member", "error_name", "path", "utf8", "signature"]
+        differing = [names[i] for i in range(7) if ((mask >> i) & 1) != ((mask >> (21 + i)) & 1)]
+        differing = [d for d in differing if d != "signature"]
+        if differing:
+            part.violation("%s:%s:verdict-depends-on-surrounding-bytes" % (PROP, differing[0]),
+                           "validating the same bytes inside a larger string gives a different verdict (%s)" % ",".join(differing), wit)
+    part.count("embedded-evaluations")
 
     def verdict(name, ibit, pbit, reason):
         got_i = bool(mask & (1 << ibit))
